@@ -32,7 +32,9 @@ import (
 	"golang.org/x/tools/go/ssa"
 )
 
-func isDefClause(c *Clause) bool { return strings.HasPrefix(c.Label, "def") }
+// a closure-definition clause is labelled def<name> with a non-empty name (defholds, defimg, …); the plain
+// label `def` is an ordinary clause label used by other contracts
+func isDefClause(c *Clause) bool { return strings.HasPrefix(c.Label, "def") && len(c.Label) > 3 }
 
 func (vc *VC) closureDefHook(mc *ssa.MakeClosure, f string, st *State, reach string) {
 	fn := mc.Fn.(*ssa.Function)
